@@ -35,7 +35,7 @@ import (
 
 func TestMain(m *testing.M) {
 	stats.Init("C13")
-	stats.Rule("(A) 1-40 connections (thorough: up to 200) per case, each on the listener or dialer side of a socket built from a recording wrapper around {xbus,xpair,xrep}, each with a drawn plan {closeInAttaching, closeInAttached, closeLater, peerDrop, protoRefuse, leave}, with traffic in between and a final socket close; (B) 6 real transports x {listener,dialer} side pipe facts. Also: plan closeRacingAttach (Close 0-40 us after the Attaching callback), 0-2 refused dial attempts before a dialer-side connection; (C) 2-5 connections queued behind a held accept loop on 7 transports. Non-trivial: the case contains a hook-side close or a refusal, or >=20 pipes of churn; distinct by (base protocol, plan sequence)")
+	stats.Rule("(A) 1-40 connections (thorough: up to 200) per case, each on the listener or dialer side of a socket built from a recording wrapper around {xbus,xpair,xrep}, each with a drawn plan {closeInAttaching, closeInAttached, closeLater, peerDrop, protoRefuse, leave}, with traffic in between and a final socket close; (B) 6 real transports x {listener,dialer} side pipe facts. Also: plan closeRacingAttach (Close 0-40 us after the Attaching callback), 0-2 refused dial attempts before a dialer-side connection; (C) 2-5 connections queued behind a held accept loop on 7 transports. Non-trivial: the case contains a hook-side close or a refusal, or >=20 pipes of churn; distinct by (base protocol, plan sequence). Round 5: callbacks that close the pipe may linger 3-8 ms (> reconnect time); ws listener in handler/mux mode served by the application's own HTTP or HTTPS server")
 	rc := m.Run()
 	stats.Flush()
 	fixture.Cleanup()
